@@ -1,7 +1,7 @@
 (* PV.C07.Refuted — counter-models: one per guard conjunct that exists because the CODE fails, and regression
    `Example`s of the repaired behaviour for the findings that were fixed in /repo
    (C07-DECL-STALE-CAPTURE 0e1c190, C07-CLEANUP-ALIAS-CHAIN 185d1d3, C07-OBS-EXPR-FIRST-ASSIGNMENT df3152c,
-   C07-FIXED-THETAS-REMOVES-OMEGAS 142d5a3).  Still refuted: cleanup_drops_dv_refuted. *)
+   C07-FIXED-THETAS-REMOVES-OMEGAS 142d5a3, C07-CLEANUP-DROPS-DV b7852b9).  No statement of C07 is refuted any more. *)
 From Coq Require Import QArith List Bool PArith Arith.
 From PV Require Import Base.PyData Base.Expr Base.Interp Base.Stmts C07.Model.
 Import ListNotations.
@@ -52,25 +52,23 @@ Definition chain_prog : list stm :=
 Definition chain_known : list id := [sT1; sT2; sW; sE1].
 
 Example alias_chain_fixed :
-  g_inline_ok chain_prog = true /\
-  inline chain_prog = [SAssign sVC (Mul (Sym sT1) (Num 2)); SAssign sY (Div (Sym sW) (Sym sVC))] /\
-  cleanup_m chain_known [] [] chain_prog = ROk (cleanup_stmts [] [] chain_prog) /\
-  sexec std_fi std_ode (env_of [(sT1, 1); (sW, 4)]%Q) (cleanup_stmts [] [] chain_prog) sY = Some 2%Q /\
+  g_inline_ok [sY] chain_prog = true /\
+  inline [sY] chain_prog = [SAssign sVC (Mul (Sym sT1) (Num 2)); SAssign sY (Div (Sym sW) (Sym sVC))] /\
+  cleanup_m chain_known [sY] [] [] chain_prog = ROk (cleanup_stmts [sY] [] [] chain_prog) /\
+  sexec std_fi std_ode (env_of [(sT1, 1); (sW, 4)]%Q) (cleanup_stmts [sY] [] [] chain_prog) sY = Some 2%Q /\
   sexec std_fi std_ode (env_of [(sT1, 1); (sW, 4)]%Q) chain_prog sY = Some 2%Q.
 Proof. repeat split; vm_compute; reflexivity. Qed.
 
 (* F = TH1 * W; Y = F : the dependent variable is a pure alias and its definition disappears *)
 Definition dropdv_prog : list stm := [SAssign sF (Mul (Sym sT1) (Sym sW)); SAssign sY (Sym sF)].
-Theorem cleanup_drops_dv_refuted :
-  exists l dv, g_dv_not_alias [dv] (declarative l) = false /\
-               cleanup_m chain_known [] [] l = ROk (cleanup_stmts [] [] l) /\
-               In dv (all_sdefs l) /\ ~ In dv (all_sdefs (cleanup_stmts [] [] l)) /\
-               ~ (forall fi ode r, sexec fi ode r (cleanup_stmts [] [] l) dv = sexec fi ode r l dv).
-Proof.
-  exists dropdv_prog, sY. repeat split; try (vm_compute; tauto).
-  - vm_compute. intros [E|[]]. discriminate.
-  - intro H. specialize (H std_fi std_ode (env_of [(sT1, 1); (sW, 4)]%Q)). vm_compute in H. discriminate.
-Qed.
+(* formerly the cleaned statements were `F = TH1 * W` only; now `Y = F` stays *)
+Example cleanup_keeps_dv :
+  cleanup_m chain_known [sY] [] [] dropdv_prog = ROk dropdv_prog /\
+  inlined [sY] (declarative dropdv_prog) = [] /\
+  sexec std_fi std_ode (env_of [(sT1, 1); (sW, 4)]%Q) (cleanup_stmts [sY] [] [] dropdv_prog) sY = Some 4%Q /\
+  (* an auxiliary alias is still inlined: without Y among the dependent variables the old result *)
+  cleanup_stmts [] [] [] dropdv_prog = [SAssign sF (Mul (Sym sT1) (Sym sW))].
+Proof. repeat split; vm_compute; reflexivity. Qed.
 
 (* Y = TH1 + E1; Y = Piecewise((TH2 + E1, W > 5), (Y, True)) : the extractor formerly read the FIRST assignment
    (TH1 + E1 for every W); now the last one, expanded over the first *)
@@ -104,6 +102,6 @@ Proof. repeat split; vm_compute; reflexivity. Qed.
 
 (* a fixed entry of a block no longer makes Model.replace fail *)
 Example cleanup_block_fixed :
-  cleanup_m chain_known [(sSI, (1#2)%Q)] [mkDist [sE1; sW] [sSI; sVC]] dropdv_prog =
-  ROk (cleanup_stmts [(sSI, (1#2)%Q)] [mkDist [sE1; sW] [sSI; sVC]] dropdv_prog).
+  cleanup_m chain_known [sY] [(sSI, (1#2)%Q)] [mkDist [sE1; sW] [sSI; sVC]] dropdv_prog =
+  ROk (cleanup_stmts [sY] [(sSI, (1#2)%Q)] [mkDist [sE1; sW] [sSI; sVC]] dropdv_prog).
 Proof. vm_compute. reflexivity. Qed.
